@@ -83,10 +83,15 @@ void harness_case(Dec &d, Case &c) {
     Ctx ctx; int transport = d.pick(2); std::string uri = transport ? "ksi+http://ext.example.test/gt-extendingservice" : "ksi+tcp://ext.example.test:4444"; KSI_CTX_setExtender(ctx, uri.c_str(), login.c_str(), key.c_str()); KSI_CTX_setOption(ctx, KSI_OPT_EXT_PDU_VER, (void *)(size_t)ver);
     Bytes srcEnc = src.enc(); HeapBuf in(srcEnc); KSI_Signature *sig = nullptr; if (KSI_Signature_parseWithPolicy(ctx, in.p, in.n, KSI_VERIFICATION_POLICY_EMPTY, nullptr, &sig) != KSI_OK) { VF_FAIL(c, "C08:reference-signature-refused", "source signature did not parse"); return; }
     Bytes before = serializeSig(sig);
-    KSI_PublicationRecord *pubRec = nullptr; Bytes pubHash; uint64_t pubTime = to;
+    KSI_PublicationRecord *pubRec = nullptr; Bytes pubHash; uint64_t pubTime = to; std::vector<std::string> supRefs, supUris;
     if ((api == X_EXTEND_PUBREC || (api == X_ASYNC && target != T_HEAD))) { std::vector<CalLink> hl = coherentCalLinks(t, to >= t ? to : t, salt); ChainResult cr = calAggregate(hl, sv.aggrRoot); pubHash = cr.ok ? cr.hash : Bytes(33, 1); if (!cr.ok) pubHash[0] = 1; if (pubHashWrong) pubHash[5] ^= 1;
         KSI_PublicationData *pd = nullptr; KSI_PublicationData_new(ctx, &pd); KSI_Integer *ti = nullptr; KSI_Integer_new(ctx, to, &ti); KSI_PublicationData_setTime(pd, ti); KSI_DataHash *ph = nullptr; KSI_DataHash_fromImprint(ctx, pubHash.data(), pubHash.size(), &ph); KSI_PublicationData_setImprint(pd, ph);
-        KSI_PublicationRecord_new(ctx, &pubRec); KSI_PublicationRecord_setPublishedData(pubRec, pd); }
+        KSI_PublicationRecord_new(ctx, &pubRec); KSI_PublicationRecord_setPublishedData(pubRec, pd);
+        // the supplied record may carry publication references and repository URIs (derived from the salt: no additional draw); the result must carry them too
+        if (salt % 2 == 0) { KSI_LIST(KSI_Utf8String) *refs = nullptr, *uris = nullptr; KSI_Utf8StringList_new(&refs); KSI_Utf8StringList_new(&uris); unsigned nr = 1 + (unsigned)(salt % 3), nu = (unsigned)(salt / 2 % 3);
+            for (unsigned i = 0; i < nr; i++) { std::string t = "Financial Times, ISSN: 0307-1766, 2017-0" + std::to_string(i + 1); KSI_Utf8String *u = nullptr; KSI_Utf8String_new(ctx, t.c_str(), t.size() + 1, &u); KSI_Utf8StringList_append(refs, u); supRefs.push_back(t); }
+            for (unsigned i = 0; i < nu; i++) { std::string t = "http://publications.example.test/r" + std::to_string(i); KSI_Utf8String *u = nullptr; KSI_Utf8String_new(ctx, t.c_str(), t.size() + 1, &u); KSI_Utf8StringList_append(uris, u); supUris.push_back(t); }
+            KSI_PublicationRecord_setPublicationRefList(pubRec, refs); KSI_PublicationRecord_setRepositoryUriList(pubRec, uris); c.cls(nu ? "supplied-record:with-references-and-repository-uris" : "supplied-record:with-references"); } }
     KSI_Signature *ext = nullptr; int res = KSI_UNKNOWN_ERROR;
     if (api == X_EXTEND_TO) { KSI_Integer *toI = nullptr; if (target != T_HEAD) KSI_Integer_new(ctx, to, &toI); res = KSI_Signature_extendTo(sig, ctx, toI, &ext); KSI_Integer_free(toI); }
     else if (api == X_EXTEND_PUBREC) res = KSI_Signature_extend(sig, ctx, pubRec, &ext);
@@ -112,6 +117,7 @@ void harness_case(Dec &d, Case &c) {
             else if (repliedSet && elementsOf(enc, 0x802)[0] != replied.toTlv().enc()) VF_FAIL(c, "C08:result:calendar-chain-not-the-replied-one", "calendar chain of the result is not the one the extender sent");
             else if (got.hasAuth) VF_FAIL(c, "C08:result:authentication-record-kept", "former calendar authentication record still present in the result");
             else if (pubRec ? (!got.hasPub || got.pub.data.time != pubTime || got.pub.data.hash != pubHash || elementsOf(enc, 0x803).size() != 1) : got.hasPub) VF_FAIL(c, pubRec ? "C08:result:publication-record-not-the-supplied-one" : "C08:result:former-publication-record-kept", "publication record of the result is wrong (" + c.desc + ")");
+            else if (pubRec && (got.pub.refs != supRefs || got.pub.uris != supUris)) VF_FAIL(c, got.pub.refs != supRefs ? "C08:result:publication-references-not-carried" : "C08:result:repository-uris-not-carried", "the result's publication record has " + num((long long)got.pub.refs.size()) + " publication references and " + num((long long)got.pub.uris.size()) + " repository URIs, the supplied record " + num((long long)supRefs.size()) + " and " + num((long long)supUris.size()) + " (" + c.desc + ")");
             else if (!v.consistent()) VF_FAIL(c, "C08:result:inconsistent", "extended signature is internally inconsistent: " + v.why);
             else if (got.docHash() != src.docHash() || got.signingTime() != src.signingTime()) VF_FAIL(c, "C08:result:document-or-time-changed", "result has another document hash or signing time");
             else if (elementsOf(enc, 0x806) != elementsOf(srcEnc, 0x806)) VF_FAIL(c, "C08:result:rfc3161-changed", "RFC3161 record of the result differs from the source"); }
